@@ -14,6 +14,8 @@ PROPS = {
         'units': ['unify'],
         'functions': ['unifiable.rs::Unifiable::unify'],
         'oracles': {'*': 'c06_keeps'},
+        'bounded': [('c06_mgu', 'the clauses not under proof - success exactly when a unifier exists, identical when resolved, no more bindings than an MGU - against a reference unifier: '
+                                '22 terms (atoms, numbers, variables, $_, complex terms, lists with and without tail variables) pairwise under 7 prior substitutions; occurs-check pairs skipped')],
         'not_covered': [
             'completeness in general (unification succeeds whenever a unifier exists) - only the constant/constant and unbound-variable/constant cases are proved',
             'soundness as equality of the fully resolved terms (needs resolution through bound tails; not yet under proof)',
